@@ -178,6 +178,9 @@ func loadDeb(archive *Ar) (*Deb, error) {
 		if err != nil {
 			return nil, err
 		}
+		if _, found := contents[member.Name]; found {
+			return nil, fmt.Errorf("Archive contains two members named '%s'", member.Name)
+		}
 		contents[member.Name] = member
 	}
 	member, ok := contents["debian-binary"]
@@ -206,6 +209,20 @@ func loadDeb(archive *Ar) (*Deb, error) {
 // Load a Debian 2.x series .deb - track down the control and data members.
 func loadDeb2(archive map[string]*ArEntry) (*Deb, error) {
 	ret := Deb{ArContent: archive}
+
+	/* Which control.* and data.* member is parsed (and which one CheckDebsig
+	 * verifies) must not depend on the iteration order of the map. */
+	for _, kind := range []string{"control.", "data."} {
+		count := 0
+		for name := range archive {
+			if strings.HasPrefix(name, kind) {
+				count++
+			}
+		}
+		if count > 1 {
+			return nil, fmt.Errorf("More than one .deb member '%s*'", kind)
+		}
+	}
 
 	if err := loadDeb2Control(archive, &ret); err != nil {
 		return nil, err
